@@ -11,6 +11,10 @@ Layer (b)  op-level simulated disk with 2-3 importer "processes" under a seeded
            (checks/c19_simdisk.py).
 Layer (c)  real ``python -c 'import dateparser'`` subprocesses against a
            scratch copy for a seeded sample of states, compared with (a).
+Layer (d)  a real interpreter is killed in the middle of its cache write
+           (pickle.dump cut after a seeded number of bytes), then two real
+           imports follow: whatever the dead writer left (truncated cache,
+           stale temporary file) must not stop the repair.
 
 Nothing under the tree under test is ever written: all damaged files live in
 scratch copies under $VERIF_TMP (/dev/shm by default), removed in a finally.
@@ -389,6 +393,56 @@ def run_real(p):
     return {"state": p["state"], "build_env": p["build_env"], "r1": r1, "complete1": c1, "r2": r2}
 
 
+CRASHER = r"""
+import os, pickle, sys
+sys.path.insert(0, %(scratch)r)
+_cut = %(cut)d
+_real_dump = pickle.dump
+def _dump(obj, file, *a, **k):
+    data = pickle.dumps(obj, *a, **k)
+    file.write(data[:_cut %% max(1, len(data))])
+    file.flush()
+    os._exit(9)          # the process dies in the middle of its cache write
+pickle.dump = _dump
+import dateparser
+os._exit(0)              # no write was attempted
+"""
+
+
+def run_crash_then_import(p):
+    """Layer (d): a REAL interpreter is killed in the middle of writing the cache (pickle.dump is cut
+    after a seeded number of bytes), then two ordinary real imports follow.  Whatever the crashed
+    writer left behind -- a truncated cache, a stale temporary file -- must not stop the repair."""
+    repo = env.repo_dir()
+    scratch = _ensure_scratch(p["scratch"], repo)
+    cache = os.path.join(scratch, CACHE_REL)
+    ddir = os.path.dirname(cache)
+    with open(os.path.join(repo, CACHE_REL), "rb") as f:
+        shipped = f.read()
+    for fn in os.listdir(ddir):
+        if not fn.endswith(".py") and fn not in ("date_translation_data", "__pycache__"):
+            os.remove(os.path.join(ddir, fn))
+    data = state_bytes(p["state"], shipped)
+    if data is not None:
+        with open(cache, "wb") as f:
+            f.write(data)
+    e = dict(os.environ)
+    e.pop("BUILD_TZ_CACHE", None)
+    if p["build_env"]:
+        e["BUILD_TZ_CACHE"] = "1"
+    e["PYTHONHASHSEED"] = "0"
+    pr = subprocess.run([sys.executable, "-c", CRASHER % {"scratch": scratch, "cut": p["cut"]}], env=e, capture_output=True, text=True, timeout=120, cwd="/")
+    left = sorted(fn for fn in os.listdir(ddir) if not fn.endswith(".py") and fn not in ("date_translation_data", "__pycache__"))
+    r1 = real_import(scratch, p["build_env"])
+    c1 = _file_complete_subprocess(scratch)
+    r2 = real_import(scratch, p["build_env"])
+    out = {"state": p["state"], "build_env": p["build_env"], "cut": p["cut"], "crasher_rc": pr.returncode, "left_behind": [("CACHE" if fn == "dateparser_tz_cache.pkl" else "OTHER") for fn in left], "r1": r1, "complete1": c1, "r2": r2}
+    for fn in os.listdir(ddir):
+        if not fn.endswith(".py") and fn not in ("date_translation_data", "__pycache__", "dateparser_tz_cache.pkl"):
+            os.remove(os.path.join(ddir, fn))
+    return out
+
+
 def _file_complete_subprocess(scratch):
     code = (
         "import sys; sys.path.insert(0, %r); sys.path.insert(1, %r)\n"
@@ -443,6 +497,20 @@ def replay(args, rep, base):
         from checks import c19_simdisk
 
         return c19_simdisk.replay(rp, rep, base, args.replay)
+    if rp.get("layer") == "d":
+        with make_farm() as farm:
+            ref = farm.call("checks.c19_crash:run_state", {"scratch": base, "state": {"kind": "shipped"}, "build_env": False}, 120)[1]["first"]
+            st, val = farm.call("checks.c19_crash:run_crash_then_import", {"scratch": base, "state": rp["state"], "build_env": rp["build_env"], "cut": rp["cut"]}, 400)
+        if st != "ok":
+            print("HARNESS replay leaf %s: %s" % (st, val))
+            return 2
+        bad = val["r1"]["rc"] != 0 or val["r2"]["rc"] != 0 or not val["complete1"]["ok"] or val["r1"].get("table") != ref["table"] or val["r2"].get("table") != ref["table"]
+        print(json.dumps(val, indent=1, default=repr))
+        if bad:
+            print("VIOLATION property=%s replay=%s" % (PROP, args.replay))
+            return 1
+        print("replay: no violation")
+        return 0
     with make_farm() as farm:
         ref = farm.call("checks.c19_crash:run_state", {"scratch": base, "state": {"kind": "shipped"}, "build_env": False}, 120)[1]
         st, val = farm.call("checks.c19_crash:run_state", {"scratch": base, "state": rp["state"], "build_env": rp["build_env"]}, 120)
@@ -557,13 +625,45 @@ def explore(args, rep, base, shipped, tier, seed):
             if bad:
                 sig = {"layer": "c", "state_kind": val["state"]["kind"], "invariant": bad[0][0], "detail": bad[0][1]}
                 rep.violation(sig, {"layer": "c", "run": "real-%s-%s" % (val["state"]["kind"], val["state"].get("k", "")), "state": val["state"], "build_env": val["build_env"], "seed": seed, "broken": bad}, "real interpreter, state %r: %s" % (val["state"], bad))
+        # layer (d): real crash in the middle of the write, then real imports
+        drng = seeds.rng_for(seed, PROP, "crash")
+        n_crash = 16 if tier == "quick" else 400
+        crash_payloads = []
+        for i in range(n_crash):
+            st0 = drng.choice([{"kind": "missing"}, {"kind": "missing"}, {"kind": "empty"}, {"kind": "prefix", "k": drng.randrange(1, len(shipped))}])
+            crash_payloads.append({"scratch": base, "state": st0, "build_env": drng.random() < 0.3, "cut": drng.choice([1, 2, 100, 65549, 65550, drng.randrange(1, 134000), drng.randrange(1, 134000)])})
+        cres = farm.map("checks.c19_crash:run_crash_then_import", crash_payloads, timeout=400)
+        n_crash_ok = 0
+        crash_writes = 0
+        for p, (st, val) in zip(crash_payloads, cres):
+            if st != "ok":
+                rep.harness_error("crash-then-import %r: %s %s" % (p["state"], st, str(val)[-300:]))
+                continue
+            n_crash_ok += 1
+            if val["crasher_rc"] == 9:
+                crash_writes += 1
+            bad = []
+            if val["r1"]["rc"] != 0:
+                bad.append(("I1-import-raises", " ".join(val["r1"]["err"])[:120].split(":")[0]))
+            elif val["r1"].get("table") != ref["table"] or val["r1"].get("probe") != ref["probe"]:
+                bad.append(("I2-table-differs", "first import after the crash"))
+            if val["r1"]["rc"] == 0 and not val["complete1"]["ok"]:
+                bad.append(("I3-file-incomplete-after-import", val["complete1"].get("why")))
+            if val["r2"]["rc"] != 0:
+                bad.append(("I4-second-import-raises", " ".join(val["r2"]["err"])[:120].split(":")[0]))
+            elif val["r2"].get("table") != ref["table"]:
+                bad.append(("I4-second-table-differs", ""))
+            if bad:
+                sig = {"layer": "d", "state_kind": val["state"]["kind"], "invariant": bad[0][0], "detail": bad[0][1], "crashed_writer_left": val["left_behind"]}
+                rep.violation(sig, {"layer": "d", "run": "crash-%s-%d" % (val["state"]["kind"], val["cut"]), "state": val["state"], "build_env": val["build_env"], "cut": val["cut"], "seed": seed, "broken": bad},
+                              "real importer killed after %d bytes of its cache write (initial state %r, left %s), then real imports: %s" % (val["cut"], val["state"], val["left_behind"], bad))
     # layer (b)
     from checks import c19_simdisk
 
     b_cov = c19_simdisk.explore(args, rep, base, tier, seed, ref)
     wall = time.time() - t_start
     coverage = {
-        "evaluations": n_eval + n_real_ok + b_cov["runs"],
+        "evaluations": n_eval + n_real_ok + n_crash_ok + b_cov["runs"],
         "distinct_nontrivial": len(nontrivial) + b_cov["distinct_traces"],
         "rule": "layer a: one evaluation = one cache-file state put at the cache path of a scratch package copy, followed by two real `import dateparser` in a fresh process; non-trivial = the first import had to repair (file content changed); distinct by (state kind, cut point, BUILD_TZ_CACHE). layer b: one evaluation = one seeded schedule of 2-3 importers over the simulated disk with faults; distinct by hash of the (importer, op, fault) trace with at least one fault or interleaved access. layer c: real interpreter imports.",
         "samples": samples + b_cov["samples"][:3],
@@ -572,6 +672,7 @@ def explore(args, rep, base, shipped, tier, seed):
         "layer_a": {"states": n_eval, "by_kind": fault_kinds, "outcomes": counts, "cache_bytes": len(shipped), "rebuilt_bytes": rebuilt_len},
         "layer_b": b_cov,
         "layer_c": {"real_interpreter_imports": n_real_ok * 2},
+        "layer_d": {"real_crash_then_import_runs": n_crash_ok, "runs_in_which_the_writer_was_killed_mid_write": crash_writes},
         "fault_kinds_fired": dict(fault_kinds, **{"b:" + k: v for k, v in b_cov["faults_fired"].items()}),
         "runs_per_hour": int((n_eval + b_cov["runs"]) / max(wall, 1e-6) * 3600),
         "seeds": [seed],
